@@ -681,8 +681,8 @@ fn main() {
     }
 
     // ---------------- 2. random schedules on larger scenarios (hook) / plain threads (Miri) ----
-    let rand_rounds = ctx.scale(2, 12, 80);
-    let rand_execs = ctx.scale(1, 150, 400);
+    let rand_rounds = ctx.scale(if ctx.thorough() { 8 } else { 3 }, 12, 80);
+    let rand_execs = ctx.scale(3, 150, 400);
     for round in 0..rand_rounds {
         let go2 = ctx.time_frac_used() < 0.45;
         for &(t, w) in &[(2usize, 4usize), (3, 4), (4, 3), (3, 8)] {
